@@ -13,6 +13,7 @@ mod report;
 mod spec;
 mod sysshim;
 mod wirereq;
+mod xstate;
 
 use report::Report;
 
@@ -31,7 +32,9 @@ fn level_of(id: &str) -> &'static str {
 
 fn run_check(id: &str, rep: &mut Report) -> bool {
     match id {
+        "C01" => checks::c01::run(rep),
         "C03" => checks::c03::run(rep),
+        "C04" => checks::c04::run(rep),
         "C08" => checks::c08::run(rep),
         "C19" => checks::c19::run(rep),
         "C20" => checks::c20::run(rep),
@@ -92,7 +95,9 @@ fn main() {
             rep.outcome("replay");
             rep.outcome("replay2");
             match id.as_str() {
+                "C01" => checks::c01::replay(&v["case"], &mut rep),
                 "C03" => checks::c03::replay(&v["case"], &mut rep),
+                "C04" => checks::c04::replay(&v["case"], &mut rep),
                 "C08" => checks::c08::replay(&v["case"], &mut rep),
                 "C19" => checks::c19::replay(&v["case"], &mut rep),
                 "C20" => checks::c20::replay(&v["case"], &mut rep),
